@@ -206,6 +206,13 @@ def idiv(a, b):
     return conc(a) // b
 
 
+def mod(a, b):
+    """a mod b for integers, b a positive concrete integer"""
+    if is_sym(a):
+        return a % b
+    return conc(a) % b
+
+
 def abs_(a):
     if is_sym(a):
         return z3.If(a >= 0, a, -a)
